@@ -52,6 +52,8 @@ MatV == {<<"Mat4", s, d>> : s \in AliasB, d \in AliasB} \cup {<<"MatP", s>> : s 
 PtV == {<<"Pt", "3", b>> : b \in AliasB}
 Res(t) == IF t[1] = "Alias" THEN Denotes(t[2]) ELSE t
 
+FsOutT == {<<"Col4", "u8", "Rgba">>, <<"Col4", "u8", "Hsla">>, <<"Col4", "f32", "Hsla">>, <<"Col", "f32", "Hsl">>,
+           <<"Col", "f32", "LinRgb">>, <<"Col", "u8", "Hsl">>}
 CurvT == {<<"Polar">>, <<"Spherical">>}
 CurvDim(t) == IF t = <<"Polar">> THEN "2" ELSE "3"
 
@@ -118,6 +120,9 @@ Programs ==
   \cup {<<op, <<a, b>>>> : op \in {"Add", "AddCart", "AddInto"}, a \in {x \in PtT \cup VecT : x[3] \in {"Unit", "Model"}}, b \in CurvT}
   \* summing an iterator: of vectors, not of points
   \cup {<<"Sum", <<a>>>> : a \in PtT \cup VecT}
+  \* render(): the fragment shader must output the packed sRGB colour (or an Option of it) - not a colour of
+  \* another space (float sRGB colours are left open: a conversion for them would mix nothing)
+  \cup {<<"RenderFs", <<o>>>> : o \in FsOutT}
   \* render(): the vertex shader must output clip-space (projective) positions
   \cup {<<"Render", <<o>>>> : o \in {<<"ProjVec4">>, <<"Vec", "3", "Model">>, <<"Pt", "3", "Model">>}}
 
@@ -129,6 +134,7 @@ WellTyped(pr) ==
     [] op = "Add" /\ b \in CurvT -> FALSE
     [] op \in {"AddCart", "AddInto"} -> Kind(a) \in {"Pt", "Vec"} /\ a[2] = CurvDim(b) /\ a[3] = "Unit"
     [] op = "Sum" -> Kind(a) = "Vec"
+    [] op = "RenderFs" -> a = <<"Col4", "u8", "Rgba">>
     [] op = "ThenA" -> Kind(a) = "Mat4" /\ a[3] = b[2]
     [] op = "CamMode" -> a = <<"Mat4", "World", "View">>
     [] op = "CamModeTo" -> TRUE
@@ -179,6 +185,7 @@ Class(pr) ==
   ELSE IF op \in {"Add", "Sub", "Lerp", "Dot", "AffAdd", "AffSub"} /\ Kind(a) \in {"Vec", "Pt", "Col"} THEN "mixed-space"
   ELSE IF op \in {"AliasIs", "CamMode", "AddCart", "AddInto"} \/ b \in CurvT THEN "mixed-space"
   ELSE IF op = "Sum" THEN "add-points"
+  ELSE IF op = "RenderFs" THEN "wrong-colour-space"
   ELSE IF op = "ThenA" THEN "compose-mismatch"
   ELSE IF op \in {"Apply", "ApplyPt"} /\ Kind(Res(a)) = "MatP" THEN "projective-as-affine"
   ELSE IF op \in {"Apply", "ApplyPt", "ApplyRes", "ApplyPtRes"} THEN "apply-outside-source"
